@@ -151,6 +151,7 @@ package disk
 
 //@ func NewFileDisk
 //@   requires [size fits a file offset] numBlocks <= 0x7ffffffffffff
+//@   requires [kernel invariant: file sizes are not negative] forall i Int :: ksize[i] >= 0
 //@   may_panic
 //@   ensures [errors are returned] result.1 == nil ==> fopen[result.0.fd] && result.0.numBlocks == numBlocks && fino[result.0.fd] == kdent[path] && kdent[path] != 0
 //@   ensures [existing file keeps its inode] result.1 == nil && old(kdent)[path] != 0 ==> kdent[path] == old(kdent)[path]
